@@ -184,3 +184,29 @@ M("C18", "native-global-rng", SRC, "        return self.random.randint(min, max)
 M("C18", "native-unseeded", SRC, "self.random = random.Random(seed)", "self.random = random.Random()", "C18.R4")
 M("C18", "twin-ge-randint-reordered", GE, "return v % (max - min + 1) + min", "return min + v % (1 + max - min)", "", expect="silent")
 M("C18", "twin-native-float", SRC, "return self.random.random() * (max - min) + min", "return min + (max - min) * self.random.random()", "", expect="silent")
+
+# ------------------------------------------------------------------------------------- C02
+MHI = "geneticengine/grammar/metahandlers/ints.py"
+MHF = "geneticengine/grammar/metahandlers/floats.py"
+MHL = "geneticengine/grammar/metahandlers/lists.py"
+MHS = "geneticengine/grammar/metahandlers/strings.py"
+TB = "geneticengine/representations/tree/treebased.py"
+M("C02", "intrange-validate-strict", MHI, "    def validate(self, v) -> bool:\n        return self.min <= v <= self.max\n\n    def __class_getitem__(cls, args):\n        return IntRange(*args)",
+  "    def validate(self, v) -> bool:\n        return self.min <= v < self.max\n\n    def __class_getitem__(cls, args):\n        return IntRange(*args)", "C02.R1")
+M("C02", "intrange-generate-plus-one", MHI, "        return random.randint(self.min, self.max)", "        return random.randint(self.min, self.max + 1)", "C02.R1")
+M("C02", "intervalrange-strict-again", MHI, "self.minimum_length <= length <= self.maximum_length and v[1] <= self.maximum_top_limit", "self.minimum_length < length <= self.maximum_length and v[1] <= self.maximum_top_limit", "C02.R1")
+M("C02", "intervalrange-start-bound", MHI, "start_position = random.randint(0, self.maximum_top_limit - range_length)", "start_position = random.randint(0, self.maximum_top_limit)", "C02.R1")
+M("C02", "floatrange-validate-strict", MHF, "    def validate(self, v) -> bool:\n        return self.min <= v <= self.max", "    def validate(self, v) -> bool:\n        return self.min < v <= self.max", "C02.R1")
+M("C02", "listsize-generate-extra", MHL, "        assert len(li) == size\n        assert self.min <= len(li) <= self.max\n", "        li.append(rec(inner_type))\n", "C02.R1")
+M("C02", "stringsize-validate-strict", MHS, "return self.min <= len(v) <= self.max and all(x in self.options for x in v)", "return self.min <= len(v) < self.max and all(x in self.options for x in v)", "C02.R1")
+M("C02", "stringsize-other-alphabet", MHS, 's = "".join(random.choice(self.options) for _ in range(size))', 's = "".join(random.choice(string.printable) for _ in range(size))', "C02.R1")
+M("C02", "varrange-choice-other", "geneticengine/grammar/metahandlers/vars.py", "        return random.choice(self.options)", "        return random.choice(sorted(dependent_values))", "C02.R1")
+M("C02", "create-node-skips-generate", INI, "        v = metahandler.generate(global_context.random, global_context.grammar, base_type, recurse, dependent_vals)", "        v = recurse(base_type)", "C02.R2")
+M("C02", "sibling-dict-aliased", INI, "            dependent_values = {}\n            nctx = LocalSynthesisContext(context.depth + 1", "            dependent_values = dependent_vals\n            nctx = LocalSynthesisContext(context.depth + 1", "C02.R3")
+M("C02", "sibling-not-recorded", INI, "                dependent_values[argn] = arg\n", "", "C02.R3")
+M("C02", "generate-without-siblings", INI, "base_type, recurse, dependent_vals)", "base_type, recurse, {})", "C02.R3")
+M("C02", "mutate-no-sibling-dict", TB, "narg = mutate(global_context, arg, part, dependent_values=dependent_values)", "narg = mutate(global_context, arg, part)", "C02.R3")
+M("C02", "mutate-ignores-dependencies", TB, "                for m in mutated:\n                    if m in dependencies:\n                        should_mutate = True\n", "                pass\n", "C02.R4")
+M("C02", "twin-intrange-mirrored", MHI, "    def validate(self, v) -> bool:\n        return self.min <= v <= self.max\n\n    def __class_getitem__(cls, args):\n        return IntRange(*args)",
+  "    def validate(self, v) -> bool:\n        return v >= self.min and self.max >= v\n\n    def __class_getitem__(cls, args):\n        return IntRange(*args)", "", expect="silent")
+M("C02", "twin-intervalrange-renamed", MHI, "        length = v[1] - v[0]\n        return self.minimum_length <= length", "        span = v[1] - v[0]\n        length = span\n        return self.minimum_length <= length", "", expect="silent")
